@@ -17,7 +17,8 @@
       the choice).                                                                           *)
 From Coq Require Import ZArith List Bool Lia Permutation Sorting.Sorted.
 From Knut Require Import Model.Bytes Model.Utf8 Model.Scanner Model.Parser Model.SynPrinter
-  Spec.FormatSpec Model.SynRender Model.Bayes Model.BayesScore Spec.InferSpec Proofs.InferProofs Proofs.InferOrder.
+  Spec.FormatSpec Model.SynRender Model.Bayes Model.BayesScore Spec.InferSpec Proofs.InferProofs Proofs.InferOrder
+  Proofs.RoundTripLeaf Proofs.InferRoundTrip.
 Import ListNotations.
 Open Scope bool_scope.
 Open Scope Z_scope.
@@ -313,6 +314,71 @@ Proof.
   exact (sems_sim ph pick Hp cands (choose_of tr) ds ds' tr 0%nat H (choose_of_agrees tr)).
 Qed.
 
+(* ================================================================== B'. the command with its real choice *)
+
+Section ScoredCommand.
+Variable F : Type.
+Variable flog : Z -> Z -> F.
+Variable fadd : F -> F -> F.
+Variable fgt : F -> F -> bool.
+Variable fields : str -> list str.
+Variable lower : str -> str.
+Variable ph : str.
+
+Notation infer_account := (infer_account F flog fadd fgt fields lower).
+Notation events := (events fields lower ph).
+Notation infer_scored := (infer_scored F flog fadd fgt fields lower ph).
+
+(* the command with its real choice is the command of Model/Bayes.v for a valid choice function *)
+Theorem infer_scored_is_infer_with letter digit training target :
+  exists choose, valid_choose choose /\
+    infer_scored letter digit training target = infer_with ph Fixed letter digit choose training target.
+Proof.
+  unfold BayesScoreM.infer_scored, infer_with.
+  destruct (parse_text letter digit training) as [ftr|e|] eqn:Htr;
+    [|exists (choose_of []); split; [apply choose_of_valid|reflexivity]
+     |exists (choose_of []); split; [apply choose_of_valid|reflexivity]].
+  destruct (parse_text letter digit target) as [ftg|e|] eqn:Htg;
+    [|exists (choose_of []); split; [apply choose_of_valid|reflexivity]
+     |exists (choose_of []); split; [apply choose_of_valid|reflexivity]].
+  unfold BayesScoreM.infer_scored_sems.
+  destruct (infer_sems_c ph (infer_account (events (sem training ftr))) (candidates_c (events (sem training ftr)))
+              (sem target ftg)) as [sems tr] eqn:Hs.
+  destruct (infer_sems_c_sim ph _ _ _ _ _ (infer_account_valid F flog fadd fgt fields lower _) Hs) as (Hv & Hi).
+  exists (choose_of tr). split; [exact Hv|].
+  rewrite (candidates_c_candidates fields lower ph) in Hi. now rewrite Hi.
+Qed.
+
+(* hence the whole property for the command as it is, without any choice function in sight:
+   on files that parse it prints a text that parses, whose meaning satisfies the executable
+   statement of the property (Spec/InferSpec.v) against target and training file, whose gaps
+   are the target's; the text is in formatted form; running the command on it prints it again *)
+Theorem infer_scored_correct letter digit training target ftr ftg :
+  class_ok letter digit ->
+  parse_text letter digit training = ParseOk ftr -> parse_text letter digit target = ParseOk ftg ->
+  exists out f',
+    infer_scored letter digit training target = InferOut out /\
+    parse_text letter digit out = ParseOk f' /\
+    infer_ok_b ph (sem training ftr) (sem target ftg) (sem out f') = true /\
+    gaps out f' = gaps target ftg /\
+    format_text letter digit out f' = FOk out /\
+    infer_scored letter digit training out = InferOut out.
+Proof.
+  intros Hcls Htr Htg.
+  destruct (infer_scored_is_infer_with letter digit training target) as (choose & Hch & ->).
+  destruct (infer_total ph letter digit choose training target ftr ftg Hch Htr Htg) as (out & Ho).
+  destruct (infer_roundtrip ph letter digit Hcls choose training target out Hch Ho)
+    as (ftr' & ftg' & f' & k & Htr' & Htg' & Hp' & Hs & Hg & Hf).
+  assert (ftr' = ftr) by congruence. assert (ftg' = ftg) by congruence. subst ftr' ftg'.
+  exists out, f'. split; [exact Ho|]. split; [exact Hp'|].
+  split; [exact (fixed_meets_spec ph (sem training ftr) choose _ _ _ _ Hch Hs)|].
+  split; [exact Hg|]. split; [exact Hf|].
+  destruct (infer_scored_is_infer_with letter digit training out) as (choose' & Hch' & ->).
+  exact (infer_idempotent ph letter digit Hcls choose choose' training target out Hch Hch' Ho).
+Qed.
+
+End ScoredCommand.
+
 (* ================================================================== C. what the choice depends on *)
 
 Lemma length_filter_perm {A} (f : A -> bool) l1 l2 : Permutation l1 l2 -> length (filter f l1) = length (filter f l2).
@@ -441,26 +507,6 @@ Proof.
   intros H1 H2 Hp. unfold BayesScoreM.infer_scored. rewrite H1, H2.
   destruct (parse_text letter digit target) as [ftg| |]; try reflexivity.
   now rewrite (infer_scored_sems_perm _ _ (sem target ftg) Hp).
-Qed.
-
-(* the command with its real choice is the command of Model/Bayes.v for a valid choice function *)
-Theorem infer_scored_is_infer_with letter digit training target :
-  exists choose, valid_choose choose /\
-    infer_scored letter digit training target = infer_with ph Fixed letter digit choose training target.
-Proof.
-  unfold BayesScoreM.infer_scored, infer_with.
-  destruct (parse_text letter digit training) as [ftr|e|] eqn:Htr;
-    [|exists (choose_of []); split; [apply choose_of_valid|reflexivity]
-     |exists (choose_of []); split; [apply choose_of_valid|reflexivity]].
-  destruct (parse_text letter digit target) as [ftg|e|] eqn:Htg;
-    [|exists (choose_of []); split; [apply choose_of_valid|reflexivity]
-     |exists (choose_of []); split; [apply choose_of_valid|reflexivity]].
-  unfold BayesScoreM.infer_scored_sems.
-  destruct (infer_sems_c ph (infer_account (events (sem training ftr))) (candidates_c (events (sem training ftr)))
-              (sem target ftg)) as [sems tr] eqn:Hs.
-  destruct (infer_sems_c_sim ph _ _ _ _ _ (infer_account_valid F flog fadd fgt fields lower _) Hs) as (Hv & Hi).
-  exists (choose_of tr). split; [exact Hv|].
-  rewrite (candidates_c_candidates fields lower ph) in Hi. now rewrite Hi.
 Qed.
 
 End Determined.
